@@ -359,6 +359,11 @@ def _other_axis(labels):
 KEEP_OPS = {   # name -> (callable on a, axes whose attrs must survive or None)
     "idx_scalar": (lambda a: a[10], ["y"]), "idx_list": (lambda a: a[[10, 20]], ["x", "y"]), "idx_mask": (lambda a: a[np.array([True, False, True])], ["x", "y"]),
     "idx_slice": (lambda a: a[30:10], ["x", "y"]), "idx_pos": (lambda a: a.ix[0:2], ["x", "y"]), "idx_take": (lambda a: a.take({"y": ["a"]}), ["x", "y"]),
+    # the array as a Dataset variable, indexed / reduced down to 0-d (where a bare DimArray would give a scalar, the Dataset keeps an array)
+    "ds_idx_collapse": (lambda a: Dataset(v=a).take(indices={"x": 10, "y": "a"})["v"], None),
+    "ds_loc_collapse": (lambda a: Dataset(v=a[:, "a"], w=a).loc[10]["v"], None),
+    "ds_mean_collapse": (lambda a: Dataset(v=a[:, "a"], w=a).mean(axis="x")["v"], None),
+    "ds_sum_collapse": (lambda a: Dataset(v=a[:, "a"]).sum(axis="x")["v"], None),
     "idx_2d": (lambda a: a[[20, 30], "a"], ["x"]), "idx_bcast": (lambda a: a.take(([10, 30], "a"), broadcast=True), ["x"]),
     "idx_bcast_mask": (lambda a: a.take((np.array([True, False, True]), "b"), broadcast=True), ["x"]), "take_axis": (lambda a: a.take_axis([10, 30], axis="x"), ["x", "y"]),
     "sum": (lambda a: a.sum(axis="x"), None), "mean": (lambda a: a.mean(axis=1), None), "median": (lambda a: a.median(axis="y"), None),
